@@ -15,6 +15,9 @@ fn main() {
     if args.get(1).map(String::as_str) == Some("--tmp-lock-worker") {
         c23::lock_worker(&args[2], args[3].parse().unwrap(), args[4].parse().unwrap(), args[5].parse().unwrap());
     }
+    if args.get(1).map(String::as_str) == Some("--tmp-churn-worker") {
+        c23::churn_worker(&args[2], args[3].parse().unwrap(), args[4].parse().unwrap(), args[5].parse().unwrap());
+    }
     if args.get(1).map(String::as_str) == Some("--lock-try") {
         c22::lock_try(&args[2]);
     }
